@@ -4,6 +4,7 @@ from __future__ import annotations
 import ast
 import re
 
+from .. import efg as _efg
 from ..pyfacts import AnalysisError, src
 from ..genfacts import GenFacts, GEN, STDLIB
 from ..asmtext import AsmText, COND_HALTS, INVERSE, parse_offset
@@ -156,7 +157,7 @@ def run(repo, chk):
     for p, ev in gf.inlined('eval_func_call'):
         if p.outcome == 'raise':
             continue
-        conds = {e.text: e.truth for e in ev if e.kind == 'cond'}
+        conds = _efg.Conds(ev)
         em = [e for e in ev if e.kind == 'emit' and e.ctor != 'asm.Metadata']
         if conds.get("name == ast.Ident('write') and abstract_params == (DataType.BYTE,)") or \
                 (conds.get("name == ast.Ident('write')") and conds.get('abstract_params == (DataType.BYTE,)')):
